@@ -10,7 +10,7 @@ use vcore::dfs::{Bound, Env};
 use vcore::num::{next_down, next_up};
 use vcore::{json, Check, Outcome, Report, Tier, Value};
 
-const LATTICE_PROBLEMS: [&str; 6] = ["rest", "lin+1", "osc1", "rot2:cost+relax", "rot3:osc2.5+gauss", "rot4:osc1+logistic+bernoulli"];
+const LATTICE_PROBLEMS: [&str; 7] = ["rest", "lin+1", "osc1", "rot2:cost+relax", "rot3:osc2.5+gauss", "rot4:osc1+logistic+bernoulli", "oscillator-at-origin"];
 const LONG_PROBLEMS_EULER: [&str; 2] = ["rest", "rot2:cost+relax"];
 const LONG_PROBLEMS: [&str; 4] = ["rest", "osc1", "rot2:cost+relax", "rot4:osc1+logistic+bernoulli"];
 
@@ -70,7 +70,7 @@ impl Check for Lattice {
         "path-lattice"
     }
     fn rule(&self) -> String {
-        "7 solvers x 6 catalogue problems (dimension 1-4) x start time x maximum step x interval length = r x maximum step (r swept from a fraction of one step to ten steps, finely across m/2 where the start-up stops fitting, plus thousands of steps) x tolerance x minimum step, statically sized real states and, for one slice per solver and problem, dynamically sized and complex states; every yielded item of every run is judged; signature = run-length-compressed gap classes (T/t/U first gap vs trial step, = + - c) and end kind".into()
+        "7 solvers x 7 catalogue problems (dimension 1-4, one at rest exactly at the origin) x start time x maximum step x interval length = r x maximum step (r swept from a fraction of one step to ten steps, finely across m/2 where the start-up stops fitting, plus thousands of steps) x tolerance x minimum step, statically sized real states and, for one slice per solver and problem, dynamically sized and complex states; every yielded item of every run is judged; signature = run-length-compressed gap classes (T/t/U first gap vs trial step, = + - c) and end kind".into()
     }
     fn axes(&self, t: Tier) -> Value {
         json!({"solvers": ALL_SOLVERS.iter().map(|s| s.name()).collect::<Vec<_>>(), "problems": LATTICE_PROBLEMS, "t0": t.pick(vec![0.0, -1.3], vec![0.0, -1.3, 2.5]),
